@@ -10,6 +10,10 @@ From SK Require Import model.C05_Model proof.C05_Proof proof.C05_Glue.
 Import ListNotations.
 Local Open Scope Z_scope.
 
+Section WithThr.
+Context {TH : Thr}.
+
+
 (** observational equality of list graphs: the same label and adjacency FUNCTIONS *)
 Definition obs_eq {A B} (g g' : lgraph A B) : Prop :=
   (forall n, label g' n = label g n) /\ (forall a b, LGraph.adj g' a b = LGraph.adj g a b).
@@ -431,3 +435,5 @@ Section AutGlue.
       exists pn. rewrite (label_relabel _ _ (sfun s) sfun_inj rc p0). exact Hp.
   Qed.
 End AutGlue.
+
+End WithThr.
